@@ -22,8 +22,11 @@ class Infra(Exception):
 
 
 def frac(x) -> Fraction:
-    """Exact rational value of a Python/numpy float or int."""
-    return Fraction(float(x)) if not isinstance(x, (int, Fraction)) else Fraction(x)
+    """Rational value of a Python/numpy float or int: the decimal number its shortest repr
+    denotes (358.4 -> 1792/5), i.e. the number the user wrote, not the binary approximation."""
+    if isinstance(x, (int, Fraction)):
+        return Fraction(x)
+    return Fraction(repr(float(x)))
 
 
 def rs(x) -> str:
